@@ -742,6 +742,8 @@ namespace fsh
                     {
                         if (setters[si].first == 'n')
                             er->set_slope_exp(setters[si].second);
+                        else if (setters[si].first == 'k')
+                            er->set_k_coef(setters[si].second);   // scalar erodibility for every node
                         else
                             er->set_area_exp(setters[si].second);
                         os << "O splset" << si << " ok\n";
